@@ -1,8 +1,41 @@
 import MidnightZK.Model.Common
 import MidnightZK.Model.C12.Par
+import MidnightZK.Model.C12.Booth
+import MidnightZK.Model.C12.Msm
+import MidnightZK.Model.C12.Curve
+import MidnightZK.Model.C12.Zn
 /-! Line-protocol handler of property C12. -/
 namespace MidnightZK.C12.Driver
-open MidnightZK
+open MidnightZK MidnightZK.C12
+
+def curveOf (s : String) : Option CurveP :=
+  if s = "bls" then some bls12381G1 else if s = "bn" then some bn256G1 else none
+
+/-- `b:s,b:s,…` (hex, no prefix) or `-`. -/
+def parsePairs (s : String) : Option (List (Nat × Nat)) :=
+  if s = "-" then some [] else
+  (s.splitOn ",").mapM (fun t =>
+    match t.splitOn ":" with
+    | [b, c] => do let b ← parseHex? b; let c ← parseHex? c; pure (b, c)
+    | _ => none)
+
+/-- The MSM entry points over `G = ℤ/r` (base `bᵢ·G` is represented by `bᵢ`). -/
+def runMsm (cp : CurveP) (entry : String) (t acc0 nbytes : Nat) (pairs : List (Nat × Nat)) :
+    Option (Zn cp.r) :=
+  let coeffs := pairs.map (fun bs => natToLeBytes nbytes bs.2)
+  let bases : List (Zn cp.r) := pairs.map (fun bs => Zn.ofNat cp.r bs.1)
+  let numBits := cp.r.log2 + 1
+  -- naive definition, used for blst's Pippenger (trusted, specified as the plain sum)
+  let naive (cs : List (List Nat)) (bs : List (Zn cp.r)) : Zn cp.r :=
+    (cs.zip bs).foldl (fun a cb => a + Zn.ofNat cp.r (leBytesToNat cb.1 * cb.2.val)) 0
+  match entry with
+  | "serial" => some (msmSerial coeffs bases (Zn.ofNat cp.r acc0))
+  | "parallel" => if t = 0 then none else some (msmParallel t coeffs bases)
+  | "best" => if t = 0 then none else some (msmBest t numBits coeffs bases)
+  | "multiexp" => some (naive coeffs bases)
+  | "specific-blst" => some (msmSpecific naive coeffs bases)
+  | "specific-best" => if t = 0 then none else some (msmSpecific (msmBest t numBits) coeffs bases)
+  | _ => none
 
 def answer (line : String) : String :=
   match words line with
@@ -12,6 +45,27 @@ def answer (line : String) : String :=
       if t = 0 then "bad-op" else
       " ".intercalate ((chunks len t).map (fun c => s!"{c.1}:{c.2}"))
     | _, _ => "bad-op"
+  | ["booth", w, nbytes, v, n] =>
+    match w.toNat?, nbytes.toNat?, parseNat? v, n.toNat? with
+    | some w, some nbytes, some v, some n =>
+      if w = 0 ∨ 24 < w then "bad-op" else
+      fmtIntList (boothRow n w (natToLeBytes nbytes v))
+    | _, _, _, _ => "bad-op"
+  | ["window", len] =>
+    match len.toNat? with
+    | some len => toString (chooseWindow len)
+    | none => "bad-op"
+  | ["gen", c] =>
+    match curveOf c with
+    | some cp => fmtAffine (toAffine cp.p cp.gen) ++ (if onCurve cp cp.gx cp.gy then " on" else " off")
+    | none => "bad-op"
+  | ["msm", c, entry, t, acc0, nbytes, pairs] =>
+    match curveOf c, t.toNat?, parseNat? acc0, nbytes.toNat?, parsePairs pairs with
+    | some cp, some t, some acc0, some nbytes, some pairs =>
+      match runMsm cp entry t acc0 nbytes pairs with
+      | some k => fmtAffine (toAffine cp.p (cp.mulGen k.val))
+      | none => "bad-op"
+    | _, _, _, _, _ => "bad-op"
   | _ => "bad-op"
 
 end MidnightZK.C12.Driver
